@@ -729,3 +729,135 @@ Definition run_seg_plane (fl nd3 s1 deq fr : bool) (seg mfv : Z) (plane : list (
   let c := {| p_float := fl; p_ndim3 := nd3; p_single1 := s1; p_dtype_eq := deq; p_fractional := fr;
               p_mfv1 := mfv =? 1 |} in
   let r := seg_plane c seg mfv plane in VL [VB (fst r); vz_list (snd r)].
+
+(* ------------------------------------------------------------------ *)
+(** * Part 10: SegmentedPaletteColorLUT.__init__ (content.py)           *)
+(* ------------------------------------------------------------------ *)
+
+(* The number of entries the segments expand to - the while loop in source
+   order.  opcode 0 = discrete segment (length, value); opcode 1 = linear
+   segment (length, end value): it starts from the previous entry
+   (expanded_lut_values[offset - 1] on an empty table is an IndexError), a
+   length of 1 divides by zero and int(nan) is a ValueError, a length of 0 adds
+   nothing; opcode 2 (indirect) and any other opcode are ValueErrors; data that
+   end inside a segment are an IndexError of the numpy array.  The VALUES of the
+   expanded table are not stored in the object's elements and are not modelled. *)
+Fixpoint seg_count (data : list Z) (n : Z) : res Z :=
+  match data with
+  | [] => Ok n
+  | op :: rest =>
+      if op =? 0 then
+        match rest with
+        | len :: _ :: r => seg_count r (n + len)
+        | _ => Err "IndexError"
+        end
+      else if op =? 1 then
+        match rest with
+        | len :: _ :: r =>
+            if n =? 0 then Err "IndexError" else
+            if len =? 1 then Err "ValueError" else seg_count r (n + len)
+        | _ => Err "IndexError"
+        end
+      else Err "ValueError"
+  end.
+
+(* guards in front of the loop (all ValueError): dtype, first mapped value in
+   [0, 2^bits), 1 <= size of the segmented data <= 2^bits *)
+Definition segmented_ok (bits first : Z) (data : list Z) : bool :=
+  ((bits =? 8) || (bits =? 16)) && (0 <=? first) && (first <? 2 ^ bits) &&
+  (1 <=? zlen data) && (zlen data <=? 2 ^ bits).
+
+(* [rule n] = what is recorded as number of entries for a table of n entries.
+   The library: [entries_field] applied to the EXPANDED length. *)
+Definition segmented_lut_gen (rule : list Z -> Z -> Z) (bits first : Z) (data : list Z)
+  : res (list Z * list Z * Z) :=
+  if segmented_ok bits first data then
+    bind (seg_count data 0) (fun n => Ok ([rule data n; first; bits], palette_store bits data, n))
+  else Err "ValueError".
+Definition segmented_lut := segmented_lut_gen (fun _ n => entries_field n).
+(* a variant that applies the 2^16 rule to the (already folded) length of the
+   segmented data instead of the expanded length: the branch is dead *)
+Definition stale_len (bits : Z) (data : list Z) : Z := if zlen data =? 2 ^ bits then 0 else zlen data.
+Definition segmented_lut_stale (bits first : Z) (data : list Z) :=
+  segmented_lut_gen (fun d n => if stale_len bits d =? 65536 then 0 else n) bits first data.
+
+(* the number_of_entries accessor; a value of VR US (what a descriptor can hold) *)
+Definition entries_read (v : Z) : Z := if v =? 0 then 65536 else v.
+Definition fits_us (v : Z) : bool := (0 <=? v) && (v <? 65536).
+
+(* ------------------------------------------------------------------ *)
+(** * Part 11: the pixel measures of a Segmentation (seg/sop.py __init__) *)
+(* ------------------------------------------------------------------ *)
+
+(* Where the PixelMeasuresSequence the constructor works on comes from, and
+   what is done to it, in the ownership algebra of part 9 ([View] = an object the
+   caller owns: the argument, or the source image's own sequence; OCopy =
+   deepcopy; OInplace = pixel_measures[0].SpacingBetweenSlices = ...). *)
+Record measures_cfg := {
+  m_user : bool;         (* pixel_measures passed by the caller *)
+  m_multiframe : bool;   (* multi-frame source: _get_pixel_measures_sequence returns the source's own sequence *)
+  m_patient : bool;      (* patient coordinate system (else slide / none) *)
+  m_has_spacing : bool;  (* SpacingBetweenSlices already in the measures *)
+  m_regular : bool       (* get_volume_positions finds a slice spacing *)
+}.
+Definition measures_origin (c : measures_cfg) : own :=
+  if m_user c then View else if m_multiframe c then View else Fresh.
+Definition measures_derive (c : measures_cfg) : bool :=
+  m_patient c && negb (m_has_spacing c) && m_regular c.
+Definition measures_ops_gen (copy_when : measures_cfg -> bool) (c : measures_cfg) : list aop :=
+  if measures_derive c then (if copy_when c then [OCopy] else []) ++ [OInplace] else [].
+Definition measures_ops := measures_ops_gen (fun _ => true).
+(* a variant that copies only measures passed by the caller *)
+Definition measures_ops_user_only := measures_ops_gen m_user.
+(* (was an object of the caller written to, does the new object record a spacing) *)
+Definition seg_measures (c : measures_cfg) : bool * bool :=
+  (snd (run_ops (measures_origin c) (measures_ops c)), m_has_spacing c || measures_derive c).
+
+(* ------------------------------------------------------------------ *)
+(** * Part 12: displayed area of a presentation state (pr/content.py)   *)
+(* ------------------------------------------------------------------ *)
+
+(* _add_displayed_area_attributes: the referenced images as (position in the
+   caller's list, TotalPixelMatrixRows, TotalPixelMatrixColumns) - Rows / Columns
+   for images that are not tiled.  sorted() is a stable sort of a COPY; the
+   image whose area is displayed is the first of the sorted copy (tiled) or the
+   first of the list. *)
+Definition img := (Z * (Z * Z))%type.
+Definition img_key (i : img) : Z := fst (snd i) * snd (snd i).
+Fixpoint insert_img (x : img) (l : list img) : list img :=
+  match l with
+  | [] => [x]
+  | y :: r => if img_key x <=? img_key y then x :: y :: r else y :: insert_img x r
+  end.
+Fixpoint isort_img (l : list img) : list img :=
+  match l with [] => [] | x :: r => insert_img x (isort_img r) end.
+Fixpoint number_from (k : Z) (l : list (Z * Z)) : list img :=
+  match l with [] => [] | s :: r => (k, s) :: number_from (k + 1) r end.
+(* [inplace]: list.sort() on the caller's list instead of sorted() *)
+Definition displayed_area_gen (inplace tiled : bool) (refs : list img) : res (img * list img) :=
+  match refs with
+  | [] => Err "IndexError"
+  | first :: _ =>
+      if tiled then
+        match isort_img refs with
+        | low :: _ => Ok (low, if inplace then isort_img refs else refs)
+        | [] => Err "IndexError"
+        end
+      else Ok (first, refs)
+  end.
+Definition displayed_area := displayed_area_gen false.
+
+(* ------------------------------------------------------------------ *)
+(** * boundary functions for parts 10-12                                *)
+(* ------------------------------------------------------------------ *)
+Definition run_segmented_lut (bits first : Z) (data : list Z) : val :=
+  vres (fun p => VL [vz_list (fst (fst p)); vz_list (snd (fst p)); VZ (snd p)]) (segmented_lut bits first data).
+Definition run_seg_measures (user multiframe patient has_spacing regular : bool) : val :=
+  let r := seg_measures {| m_user := user; m_multiframe := multiframe; m_patient := patient;
+                           m_has_spacing := has_spacing; m_regular := regular |} in
+  VL [VB (fst r); VB (snd r)].
+(* output: [bottom right hand corner = (columns, rows) of the selected image; position of the selected
+   image; the caller's list after the call as positions in the list before] *)
+Definition run_displayed_area (tiled : bool) (sizes : list (Z * Z)) : val :=
+  vres (fun p => VL [vz_list [snd (snd (fst p)); fst (snd (fst p))]; VZ (fst (fst p)); vz_list (map fst (snd p))])
+       (displayed_area tiled (number_from 0 sizes)).
